@@ -204,10 +204,21 @@ func (r *Run) libCall(st *State, fr *Frame, name string, recv Val, args []Val, s
 	case "time.NewTimer", "time.NewTicker":
 		t := e.freshConst("timer", SRef)
 		st.assume(Not(Eq(t, NilOf(SRef))))
+		// ghost: a new timer/ticker is running (stopped(t) is false until Stop is called on it)
+		e.region(st, "timer.stopped", []Sort{SRef}, SBool)
+		e.regionWrite1(st, "timer.stopped", SBool, t, False)
 		return ret(t)
 	case "(*time.Timer).Stop":
+		if recv != nil {
+			e.region(st, "timer.stopped", []Sort{SRef}, SBool)
+			e.regionWrite1(st, "timer.stopped", SBool, e.asTerm(recv, SRef), True)
+		}
 		return ret(e.freshConst("stopped", SBool))
 	case "(*time.Ticker).Stop":
+		if recv != nil {
+			e.region(st, "timer.stopped", []Sort{SRef}, SBool)
+			e.regionWrite1(st, "timer.stopped", SBool, e.asTerm(recv, SRef), True)
+		}
 		return ret()
 	// ---------------------------------------------------------------- math/rand
 	case "math/rand.Int63n":
